@@ -76,6 +76,7 @@ type StructSpec struct {
 	PkgPath    string
 	Invariants []Clause
 	GuardedBy  map[string][]string // mutex field -> guarded fields
+	LockInv    map[string][]Clause // mutex field -> monitor invariants
 }
 
 type SpecFn struct {
@@ -119,7 +120,7 @@ var clauseKeywords = map[string]bool{
 	"requires": true, "ensures": true, "assigns": true, "invariant": true, "decreases": true, "mode": true,
 	"pure": true, "trusted": true, "guarded_by": true, "holds": true, "holds_r": true, "may_panic": true,
 	"use": true, "havoc_at": true, "ghost": true, "assume": true, "unroll": true, "vars": true, "hyp": true, "concl": true,
-	"nosafety": true, "call": true, "extern": true,
+	"nosafety": true, "call": true, "extern": true, "lock_invariant": true,
 }
 
 var reBlock = regexp.MustCompile(`(?s)/\*@(.*?)@\*/`)
@@ -494,6 +495,25 @@ func (cs *ContractSet) parseFile(path, pkgPath string) error {
 						curF.HoldsR = append(curF.HoldsR, t)
 					}
 				}
+			case "lock_invariant":
+				// lock_invariant <mutexField>: [label:] expr — monitor invariant: assumed when the mutex is acquired,
+				// proved before a write-locked section releases it
+				if curS == nil {
+					return fail(fmt.Errorf("lock_invariant outside struct"))
+				}
+				parts := strings.SplitN(rc.text, ":", 2)
+				if len(parts) != 2 {
+					return fail(fmt.Errorf("bad lock_invariant"))
+				}
+				c, err := parseClause(strings.TrimSpace(parts[1]))
+				if err != nil {
+					return fail(err)
+				}
+				if curS.LockInv == nil {
+					curS.LockInv = map[string][]Clause{}
+				}
+				mu := strings.TrimSpace(parts[0])
+				curS.LockInv[mu] = append(curS.LockInv[mu], c)
 			case "guarded_by":
 				if curS == nil {
 					return fail(fmt.Errorf("guarded_by outside struct"))
